@@ -52,12 +52,33 @@ def run(ctx):
         {"name": "error->From<ReadError>", "atoms": [r"^%s fails$" % R], "leaf": r"^return Result::Err\(err\(%s\)\)$" % R},
     ]
     match_table(ctx, "C06-R1", f, walk(f), rows, "QuicRecvStream::read")
-    f = A.find1(r"^wtransport::driver::streams::QuicRecvStream::read_exact::\{closure#0\}::\{closure#0\}$")
-    rows = [
-        {"name": "FinishedEarly(n)->FinishedEarly(n)", "atoms": [r"^quic_error is FinishedEarly$"], "leaf": r"^return StreamReadExactError::FinishedEarly\(\(quic_error as FinishedEarly\)\.0\)$"},
-        {"name": "ReadError(e)->Read(e.into())", "atoms": [r"^quic_error is ReadError$"], "leaf": r"^return StreamReadExactError::Read\(\(quic_error as ReadError\)\.0\)$"},
-    ]
-    match_table(ctx, "C06-R1", f, walk(f), rows, "QuicRecvStream::read_exact error map")
+    # the error map of read_exact: found on the error value (closure or fn item given to map_err), not by its name
+    from pathwalk import strip_refs
+    g = A.find1(r"^wtransport::driver::streams::QuicRecvStream::read_exact::\{closure#0\}$")
+    maps = set()
+    for p in nonpanic(walk(g)):
+        if p.leaf[0] != "return":
+            continue
+        v = strip_refs(p.leaf[1])
+        if isinstance(v, tuple) and v[0] == "call" and v[1].endswith("result::Result::map_err") and len(v[2]) == 2:
+            v = ("agg", "adt", "std::result::Result", "Err", 1, (("apply", v[2][1], ("err", v[2][0])),))   # `x.map_err(F)` returned as is
+        if isinstance(v, tuple) and v[0] == "agg" and v[3] == "Err" and v[5]:
+            x = strip_refs(v[5][0])
+            if isinstance(x, tuple) and x[0] == "apply":
+                F = strip_refs(x[1])
+                if isinstance(F, tuple) and F[0] == "agg" and F[1] == "closure":
+                    maps.add((F[2], 2))
+                elif isinstance(F, tuple) and F[0] == "fnref":
+                    maps.add((F[1], 1))
+    ctx.check("C06-R1", "read_exact maps its error through one function", len(maps) == 1, "QuicRecvStream::read_exact does not map quinn's ReadExactError through exactly one closure / fn: %s" % sorted(maps), where(g))
+    for path_, par in sorted(maps):
+        f = A.fn(path_)
+        pn = f.body["locals"][par].get("name") or "arg%d" % par
+        rows = [
+            {"name": "FinishedEarly(n)->FinishedEarly(n)", "atoms": [r"^%s is FinishedEarly$" % pn], "leaf": r"^return StreamReadExactError::FinishedEarly\(\(%s as FinishedEarly\)\.0\)$" % pn},
+            {"name": "ReadError(e)->Read(e.into())", "atoms": [r"^%s is ReadError$" % pn], "leaf": r"^return StreamReadExactError::Read\((<impl From<ReadError> for StreamReadError>::from\()?\(%s as ReadError\)\.0\)?\)$" % pn},
+        ]
+        match_table(ctx, "C06-R1", f, walk(f), rows, "QuicRecvStream::read_exact error map")
     for nm in ("write", "write_all"):
         f = A.find1(r"^wtransport::driver::streams::QuicSendStream::%s::\{closure#0\}$" % nm)
         sg = sorted(path_sig(p)[1] for p in nonpanic(walk(f)))
